@@ -94,6 +94,8 @@ fn drive(s: &Sched, nthreads: usize, prefix: &[usize]) -> RunLog {
     let mut log = RunLog { decisions: Vec::with_capacity(64), switches_inside: false, injected: false };
     let mut last_loaded: Vec<bool> = vec![false; nthreads]; // thread has loaded and not yet done its CAS
     let mut last_run: Option<usize> = None;
+    // spurious failures are finite: at most two are injected per run
+    let mut injected_count = 0;
     loop {
         // wait until nobody is running
         let mut spins = 0u32;
@@ -119,13 +121,14 @@ fn drive(s: &Sched, nthreads: usize, prefix: &[usize]) -> RunLog {
         let t = waiting[c];
         let op = s.status[t].load(SeqCst);
         let mut inject = false;
-        if op == WAIT_CAS_WEAK {
+        if op == WAIT_CAS_WEAK && injected_count < 2 {
             let k = log.decisions.len();
             let c2 = prefix.get(k).copied().unwrap_or(0).min(1);
             log.decisions.push((c2, 2));
             inject = c2 == 1;
             if inject {
                 log.injected = true;
+                injected_count += 1;
             }
         }
         // a context switch between a thread's load and its own compare-exchange
@@ -268,7 +271,44 @@ fn controlled_run(sc: &Scenario, prefix: &[usize], case: &[u8]) -> Outcome {
             vbase::crash::set_current("schedules", &case);
             // first yield: the scheduler decides who starts
             sched.yield_point(i, Op::Load);
-            let r: Vec<String> = prog.iter().map(|op| run_op(&sh, *op)).collect();
+            let mut r: Vec<String> = Vec::new();
+            // references handed out by as_str stay valid as long as the shared value lives:
+            // keep them across the other threads' operations and read them again at the end
+            let mut held: Vec<(&str, String)> = Vec::new();
+            for op in prog.iter() {
+                match (&*sh, op) {
+                    (Shared::Lazy(l), TOp::AsStr) => {
+                        let s = l.as_str();
+                        if let Some(s) = s {
+                            held.push((s, s.to_string()));
+                        }
+                        r.push(format!("{:?}", s));
+                    }
+                    (Shared::Owned(o), TOp::AsStr) => {
+                        let s = o.as_str();
+                        if let Some(s) = s {
+                            held.push((s, s.to_string()));
+                        }
+                        r.push(format!("{:?}", s));
+                    }
+                    (Shared::Owned(o), TOp::GetKey) | (Shared::Owned(o), TOp::GetIdx) => {
+                        let c = if matches!(op, TOp::GetKey) { o.get("s") } else { o.get(0usize) };
+                        let s = c.and_then(|x| x.as_str());
+                        if let Some(s) = s {
+                            held.push((s, s.to_string()));
+                        }
+                        r.push(format!("{:?}", s));
+                    }
+                    _ => r.push(run_op(&sh, *op)),
+                }
+            }
+            // let the others run before the references are read again
+            sched.yield_point(i, Op::Load);
+            for (now, then) in &held {
+                if *now != then.as_str() {
+                    r.push(format!("<a reference handed out earlier now reads {:?} instead of {:?}>", vbase::refjson::trunc(&now.chars().take(40).collect::<String>(), 60), vbase::refjson::trunc(then, 60)));
+                }
+            }
             sched.done(i);
             vbase::crash::clear_current();
             MY_INDEX.with(|c| c.set(usize::MAX));
@@ -328,10 +368,12 @@ pub fn oracle(case: &[u8], obs: &mut Obs) -> Result<(), Fail> {
     let prefix: Vec<usize> = case[1..].iter().map(|b| *b as usize).collect();
     set_hook(Some(hook));
     alloc::set_global_counting(true);
+    alloc::set_poison_on_free(true);
     // warm-up + expectations
     let _ = sequential(sc);
     let (want, want_mid) = sequential(sc);
     let out = controlled_run(sc, &prefix, case);
+    alloc::set_poison_on_free(false);
     alloc::set_global_counting(false);
     set_hook(None);
     obs.render = Some(format!("scenario {} schedule {:?}", sc.name, out.log.decisions.iter().map(|d| d.0).collect::<Vec<_>>()));
@@ -361,6 +403,7 @@ pub fn run(ctx: &Ctx) {
     let all = scenarios(false);
     set_hook(Some(hook));
     alloc::set_global_counting(true);
+    alloc::set_poison_on_free(true);
     let mut samples = Vec::new();
     for sc in &scs {
         let idx = all.iter().position(|s| s.name == sc.name).unwrap();
@@ -387,6 +430,7 @@ pub fn run(ctx: &Ctx) {
                 // full decision vector as the replay case
                 let mut case = vec![idx as u8];
                 case.extend(out.log.decisions.iter().map(|d| d.0 as u8));
+                alloc::set_poison_on_free(false);
                 alloc::set_global_counting(false);
                 set_hook(None);
                 ctx.record_violation(sub, &case, f);
@@ -423,6 +467,7 @@ pub fn run(ctx: &Ctx) {
         }
     }
     ctx.add_raw_evaluations("schedules", 0, 0, &[], samples);
+    alloc::set_poison_on_free(false);
     alloc::set_global_counting(false);
     set_hook(None);
     let _: Option<Fail> = None;
